@@ -98,4 +98,42 @@ def hop (r : Nat) (x : Report) : Report := { x with cid := r }
 /-- a report travelling up through the relays `path` (innermost first) -/
 def relayUp (path : List Nat) (x : Report) : Report := path.foldl (fun acc r => hop r acc) x
 
+/-! ### a connection's sender (fractal/connection/conn.go `sendRoutine`): two lanes -/
+
+/-- messages queued for the wire: the priority lane (proof / signature messages, keep-alive) and the normal lane
+(qualities messages); `wire` is what has been written to the socket, oldest first, tagged with its lane -/
+structure Conn where
+  prio : List Nat := []
+  norm : List Nat := []
+  wire : List (Bool × Nat) := []
+
+inductive CLabel
+  | sendPrio (m : Nat)        -- `SendPriority`
+  | sendNorm (m : Nat)        -- `Send`
+  | pump (preferNormal : Bool) -- one turn of `sendRoutine`; `preferNormal`: the inner `select` found both lanes ready and chose the normal one
+
+def Conn.step (c : Conn) : CLabel → Conn
+  | .sendPrio m => { c with prio := c.prio ++ [m] }
+  | .sendNorm m => { c with norm := c.norm ++ [m] }
+  | .pump preferNormal =>
+    match c.prio, c.norm with
+    | [], [] => c
+    | p :: ps, [] => { c with prio := ps, wire := c.wire ++ [(true, p)] }
+    | [], n :: ns => { c with norm := ns, wire := c.wire ++ [(false, n)] }
+    | p :: ps, n :: ns =>
+      if preferNormal then { c with norm := ns, wire := c.wire ++ [(false, n)] }
+      else { c with prio := ps, wire := c.wire ++ [(true, p)] }
+
+def Conn.run (c : Conn) (ls : List CLabel) : Conn := ls.foldl Conn.step c
+
+def sentPrio : List CLabel → List Nat
+  | [] => []
+  | .sendPrio m :: r => m :: sentPrio r
+  | _ :: r => sentPrio r
+
+def sentNorm : List CLabel → List Nat
+  | [] => []
+  | .sendNorm m :: r => m :: sentNorm r
+  | _ :: r => sentNorm r
+
 end MassVerif.Fractal
